@@ -962,8 +962,8 @@ fn rand_str(rng: &mut SplitMix64, buf: usize, wordy: bool, allow_big: bool, st: 
         21..=24 => 38 + rng.below(4) as usize,
         25..=34 => rng.below(100) as usize,
         35..=37 => rng.below(2000) as usize,
-        38 => buf - 1 + rng.below(3) as usize,
-        _ => *rng.pick(&[2 * buf, 3 * buf + 7, buf + 39, buf + 40, 2 * buf - 1]),
+        38 => buf.saturating_sub(1) + rng.below(3) as usize,
+        _ => *rng.pick(&[2 * buf, 3 * buf + 7, buf + 39, buf + 40, 2 * buf.saturating_sub(1)]),
     };
     let len = if wordy && len == 0 { 1 } else { len };
     if len >= buf {
@@ -1083,7 +1083,7 @@ fn rand_sink(rng: &mut SplitMix64, buf: usize) -> (usize, usize) {
         4 => 1,
         5 => 1 + rng.below(7) as usize,
         6 => 1 + rng.below(5000) as usize,
-        7 => buf - 1,
+        7 => buf.saturating_sub(1),
         8 => buf,
         _ => 40,
     };
@@ -1094,7 +1094,7 @@ fn rand_sink(rng: &mut SplitMix64, buf: usize) -> (usize, usize) {
 fn gen(args: &Args, emit: &mut dyn FnMut(String), st: &mut Stats) {
     let thorough = args.tier == "thorough";
     let buf: usize = args.extra.get("buf").and_then(|s| s.parse().ok()).expect("--buf <BUF_SIZE> is required");
-    assert!(buf >= 64, "generators assume BUF_SIZE >= 64");
+    assert!(buf >= 1, "BUF_SIZE must be positive");
     let profile = args.extra.get("profile").cloned().unwrap_or_else(|| "release".into());
     let dbg_build = profile == "debug";
     let mut rng = SplitMix64::new(args.seed ^ 0xC09 ^ if dbg_build { 0x5555 } else { 0 });
@@ -1175,7 +1175,7 @@ fn gen(args: &Args, emit: &mut dyn FnMut(String), st: &mut Stats) {
     let mut d = 0usize;
     while d <= 45 {
         for (n, it) in interesting.iter().enumerate() {
-            let pre = format!("W s:0:{}:{}", buf - d, d);
+            let pre = format!("W s:0:{}:{}", buf.saturating_sub(d), d);
             let tail = match (n + d) % 4 {
                 0 => vec![pre, it.clone()],
                 1 => vec![pre, it.clone(), "F".to_string()],
@@ -1190,7 +1190,7 @@ fn gen(args: &Args, emit: &mut dyn FnMut(String), st: &mut Stats) {
         for delta in [-1i64, 0, 1] {
             let l = d as i64 + delta;
             if l >= 0 {
-                g.case(0, 0, false, 0, &[format!("W s:0:{}:{}", buf - d, d), format!("W s:0:{}:3", l), "C 33".to_string()]);
+                g.case(0, 0, false, 0, &[format!("W s:0:{}:{}", buf.saturating_sub(d), d), format!("W s:0:{}:3", l), "C 33".to_string()]);
                 st.bump("fill_boundary_exact_room");
             }
         }
@@ -1200,7 +1200,7 @@ fn gen(args: &Args, emit: &mut dyn FnMut(String), st: &mut Stats) {
     // (2b) the tail is delivered by `Drop` alone (no flush after the last write), under every sink kind ---------
     //      (an optimised build keeps the tail in the buffer until the drop; `Drop` must use `write_all` semantics)
     for (si, &(k0, j)) in [(0usize, 0usize), (1, 0), (3, 0), (usize::MAX, 0), (0, 2), (0, 3), (1, 2), (5, 3), (usize::MAX, 2)].iter().enumerate() {
-        for (ti, &tail) in [1usize, 2, 7, 40, 1000, buf - 1, buf].iter().enumerate() {
+        for (ti, &tail) in [1usize, 2, 7, 40, 1000, buf.saturating_sub(1), buf].iter().enumerate() {
             let k = if k0 == usize::MAX { tail / 2 + 1 } else { k0 };
             for prefix in 0..3 {
                 let mut ops: Vec<String> = Vec::new();
@@ -1237,18 +1237,18 @@ fn gen(args: &Args, emit: &mut dyn FnMut(String), st: &mut Stats) {
         let scripts: Vec<Vec<String>> = vec![
             vec![format!("W s:0:{}:1", buf), "C 65".into()],
             vec![format!("W S:1:{}:2", buf), "C 10".into(), "W i8:-1".into()],
-            vec![format!("W s:0:{}:3", buf - 20), format!("W {}", u64max), "C 32".into()],
-            vec![format!("W s:0:{}:4", buf - 39), format!("W {}", u128max), "C 10".into(), "F".into()],
-            vec![format!("W s:0:{}:5", buf - 40), format!("W i128:-170141183460469231731687303715884105728"), "C 33".into()],
-            vec![format!("W s:0:{}:6", buf - 2), "W v 2 u8:12 u8:3".into()],
-            vec![format!("W s:0:{}:7", buf - 2), "W t 2 x:6162 u8:1".into()],
-            vec![format!("W s:0:{}:8", buf - 20), format!("W v 3 {} {} {}", u64max, u64max, u64max)],
+            vec![format!("W s:0:{}:3", buf.saturating_sub(20)), format!("W {}", u64max), "C 32".into()],
+            vec![format!("W s:0:{}:4", buf.saturating_sub(39)), format!("W {}", u128max), "C 10".into(), "F".into()],
+            vec![format!("W s:0:{}:5", buf.saturating_sub(40)), format!("W i128:-170141183460469231731687303715884105728"), "C 33".into()],
+            vec![format!("W s:0:{}:6", buf.saturating_sub(2)), "W v 2 u8:12 u8:3".into()],
+            vec![format!("W s:0:{}:7", buf.saturating_sub(2)), "W t 2 x:6162 u8:1".into()],
+            vec![format!("W s:0:{}:8", buf.saturating_sub(20)), format!("W v 3 {} {} {}", u64max, u64max, u64max)],
             vec![format!("L 1 s:0:{}:9", buf)],
             vec![format!("O 2 s:0:{}:10 u8:5", buf), "F".into()],
-            vec![format!("W s:0:{}:11", buf - 3), "L 2 u8:100 i8:-5".into()],
+            vec![format!("W s:0:{}:11", buf.saturating_sub(3)), "L 2 u8:100 i8:-5".into()],
             vec![format!("W s:0:{}:12", 2 * buf), "C 65".into()],
-            vec![format!("W s:0:{}:13", buf - 5), "W x:68656c6c6f".into(), "C 32".into(), "W x:68656c6c6f".into()],
-            vec![format!("W s:0:{}:14", buf - 1), "C 65".into(), "C 66".into(), "C 67".into()],
+            vec![format!("W s:0:{}:13", buf.saturating_sub(5)), "W x:68656c6c6f".into(), "C 32".into(), "W x:68656c6c6f".into()],
+            vec![format!("W s:0:{}:14", buf.saturating_sub(1)), "C 65".into(), "C 66".into(), "C 67".into()],
         ];
         for (n, ops) in scripts.iter().enumerate() {
             for &(k, j) in [(0usize, 0usize), (1, 0), (buf / 3 + 1, 2), (0, 3)].iter() {
@@ -1262,8 +1262,8 @@ fn gen(args: &Args, emit: &mut dyn FnMut(String), st: &mut Stats) {
     }
 
     // (3) string pieces around the buffer size, at several fill levels -----------------------------
-    let big = [buf - 1, buf, buf + 1, 2 * buf, 2 * buf + 1, 3 * buf + 7];
-    let fills = [0usize, 1, 39, buf - 40, buf - 1, buf];
+    let big = [buf.saturating_sub(1), buf, buf + 1, 2 * buf, 2 * buf + 1, 3 * buf + 7];
+    let fills = [0usize, 1, 39, buf.saturating_sub(40), buf.saturating_sub(1), buf];
     for (a, &len) in big.iter().enumerate() {
         for (b, &fill) in fills.iter().enumerate() {
             if !thorough && (a + b) % 2 == 1 {
@@ -1281,7 +1281,7 @@ fn gen(args: &Args, emit: &mut dyn FnMut(String), st: &mut Stats) {
             }
             let (k, j) = match (a + 2 * b) % 5 {
                 0 => (1, 0),
-                1 => (buf - 1, 3),
+                1 => (buf.saturating_sub(1), 3),
                 2 => (7, 2),
                 _ => (0, 0),
             };
@@ -1298,7 +1298,7 @@ fn gen(args: &Args, emit: &mut dyn FnMut(String), st: &mut Stats) {
         let steer = !dbg_build && rng.chance(1, 6);
         if steer {
             // steer the fill level close to the boundary first
-            ops.push(format!("W s:0:{}:{}", buf - rng.below(46) as usize, rng.below(50)));
+            ops.push(format!("W s:0:{}:{}", buf.saturating_sub(rng.below(46) as usize), rng.below(50)));
             st.bump("random_steered");
         }
         for _ in 0..nops {
@@ -1464,6 +1464,49 @@ fn gen(args: &Args, emit: &mut dyn FnMut(String), st: &mut Stats) {
     }
 }
 
+/// `e_writer probe`: observe the buffer size differentially — feed single characters to a fresh writer until the sink
+/// receives its first `write_all`; in an optimised build the length of that first delivery is the fill level at which the
+/// writer has to flush, i.e. its buffer size (a flush-per-write build reports 1). Prints one JSON line.
+fn probe() {
+    let sizes = Rc::new(RefCell::new(Vec::<usize>::new()));
+    struct Rec(Rc<RefCell<Vec<usize>>>);
+    impl Write for Rec {
+        fn write(&mut self, buf: &[u8]) -> io::Result<usize> {
+            Ok(buf.len())
+        }
+        fn write_all(&mut self, buf: &[u8]) -> io::Result<()> {
+            self.0.borrow_mut().push(buf.len());
+            Ok(())
+        }
+        fn flush(&mut self) -> io::Result<()> {
+            Ok(())
+        }
+    }
+    let limit: usize = 1 << 26;
+    let sz = sizes.clone();
+    let r = catch(move || {
+        let mut w = Writer::new(Box::new(Rec(sz.clone())));
+        let mut n = 0usize;
+        while n < limit && sz.borrow().is_empty() {
+            w.write_char('a');
+            n += 1;
+        }
+        let first = sz.borrow().first().copied();
+        std::mem::forget(w);
+        (n, first)
+    });
+    match r {
+        Ok((n, Some(first))) => println!("{{\"first_delivery_len\":{},\"chars_written\":{},\"debug_assertions\":{}}}", first, n, cfg!(debug_assertions)),
+        Ok((n, None)) => println!("{{\"first_delivery_len\":null,\"chars_written\":{},\"debug_assertions\":{}}}", n, cfg!(debug_assertions)),
+        Err(p) => println!("{{\"first_delivery_len\":null,\"panic\":\"{}\"}}", p),
+    }
+}
+
 fn main() {
+    if std::env::args().nth(1).as_deref() == Some("probe") {
+        install_quiet_panic_hook();
+        probe();
+        return;
+    }
     cli(gen, run_case);
 }
